@@ -11,6 +11,7 @@ import (
 	"runtime/debug"
 	"sort"
 	"strings"
+	"syscall"
 	"time"
 	"unsafe"
 
@@ -193,7 +194,33 @@ func (s *Store) v1Handle(fs filesystem.Storage, cache int) (*filesystem.KeyStore
 	if err != nil {
 		return nil, err
 	}
+	if s.Cfg.LinkRefused() {
+		fs = &NoLinkStorage{Storage: fs, How: s.Cfg.Link}
+	}
 	return filesystem.NewCustomFilesystemKeyStore().KeyDirectory(s.Cfg.spell(s.Dir)).Storage(fs).Encryptor(enc).CacheSize(cache).Build()
+}
+
+// NoLinkStorage is a v1 storage without hard links: Link is refused on every call (reported the
+// way How says, see Config.Link), every other operation is the embedded storage's own.
+type NoLinkStorage struct {
+	filesystem.Storage
+	How string
+}
+
+// ErrLinkNotSupported is the refusal of How "plain" (an error that carries no errno).
+var ErrLinkNotSupported = errors.New("operation not supported")
+
+// Link refuses.
+func (n *NoLinkStorage) Link(oldpath, newpath string) error {
+	switch n.How {
+	case "eperm":
+		return &os.LinkError{Op: "link", Old: oldpath, New: newpath, Err: syscall.EPERM}
+	case "enotsup":
+		return &os.LinkError{Op: "link", Old: oldpath, New: newpath, Err: syscall.EOPNOTSUPP}
+	case "exdev":
+		return &os.LinkError{Op: "link", Old: oldpath, New: newpath, Err: syscall.EXDEV}
+	}
+	return ErrLinkNotSupported
 }
 
 func v2Suite() (*cryptoV2.KeyStoreSuite, error) {
